@@ -121,8 +121,14 @@ PROPS = {
                 "expected failures first; ALL histories of length <= 4 (thorough 5) over {add loop, add empty, build, reset, query}, "
                 "over {invert, contains, cell} for a 64- and an 8-vertex loop, over {invert, contains} for empty/full/normal polygons, "
                 "all EdgeQuery call sequences of length <= 3 over 7 call kinds x 6 option sets; then random histories up to length 30. "
+                "TARGET OBJECTS: `newtgt:<name>` creates a target object that lives for the rest of the history (one per name), "
+                "`tadd:<shape>` adds a shape to the ShapeIndex of the current index target, `tset` configures its inner query; "
+                "5 fixed histories (D49 with an explicit object, target index growing between two calls, empty target filled later), "
+                "ALL sequences of length <= 4 over {3 calls, 3 tadd shapes, re-creation} of one small index target x 3 option sets and over "
+                "{2 targets, 2 tadd shapes, 4 calls}; random histories include newtgt / tadd / tset and calls with the current object. "
                 "Every query step is compared with the same query on fresh objects (fresh index with all current shapes built once, "
-                "fresh EdgeQuery with the caller's options, fresh loop/polygon from the current vertices). "
+                "fresh EdgeQuery with the caller's options, fresh loop/polygon from the current vertices, fresh target index + fresh "
+                "target from the current shape list of the target object, configured as the caller configured it). "
                 "non-trivial = history with at least one query step after at least two other steps; distinct = distinct op sequence",
         "nontrivial": lambda l: l.split(" = ")[0].count(",") >= 2 and any(t in l for t in ("query", "call:", "lcontains", "lcell", "pcontains")),
         "trusted_base": ["geometry is abstracted: an answer in the model is the record of visible shapes + effective options; that the real "
@@ -130,8 +136,15 @@ PROPS = {
                          "the model's 'same as fresh = N' is symbolic; the oracle accepts a concrete Y there (a wrong limit need not change a result)"],
         "assumptions": ["histories that mutate a ShapeIndex (Add/Reset) while an EdgeQuery on it is alive are out of contract: the model "
                         "drops the query object and the generator creates a new one",
-                        "Remove is not in the alphabet (removeShapeInternal is an unimplemented stub)"],
-        "partial": ["current_partial_single_build", "current_partial_first_update", "current_partial_search_answer"],
+                        "Remove is not in the alphabet (removeShapeInternal is an unimplemented stub)",
+                        "OPEN FINDING D51: the inner query of a ShapeIndex target caches a covering of the TARGET's index and is never "
+                        "reset; the generator does not add shapes to a target index after a call that may have cached it (target index "
+                        "with more than 30 edges); C13_D51=1 lifts this and the check then reports the violation. The oracle runs "
+                        "`Fixes.tree` (d51 = false), the theorems for all histories hold for `Fixes.all` (d51 = true)",
+                        "with an index-target object the generated query options have maxError 0 (an index target forwards maxError to "
+                        "its own query, whose brute-force / optimized choice legitimately depends on when it first counted the edges)"],
+        "partial": ["current_partial_single_build", "current_partial_first_update", "current_partial_search_answer",
+                    "current_D49_partial_first_call", "tree_target_options_fresh_partial", "tree_D51_small_target_ok"],
     },
     "C14": {
         # built with `go build -race -tags verif`; falls back to the non-race binary (race=-) if -race is unavailable
